@@ -23,6 +23,7 @@ def main(tier):
     chk.run("R-TOKTABLE", K.toktable, r, floor=55)
     chk.run("R-NUMEXAMPLES", K.numexamples, r, floor=12)
     chk.run("R-NAMEREGEX", K.nameregex, r, floor=3)
+    chk.run("R-RESERVEDPREFIX", K.reservedprefix, r, floor=9)
     chk.run("R-TOKSKIP", K.tokskip, r, floor=60)
     chk.run("R-TOKTIE", K.toktie, r, floor=3)
     chk.run("R-TOKPOS", K.tokpos, r, floor=4)
